@@ -102,7 +102,8 @@ Proof. exact (stv_script_cand_order cand ceqb ceqb_spec). Qed.
 (* Alaska: Plurality stage, STV stage, and the get_profile replay of the STV stage — which draws
    AGAIN from the script and may therefore leave the recorded run.  Proved under
    [alaska_script_ok cfg]: one-by-one mode, or Droop quota, or full-weight transfer.
-   FULL STATEMENT (open): the same without the premise [alaska_script_ok cfg].  What is missing: in a
+   FULL STATEMENT (closed since: Properties/C08_alaska3.v proves it, see c08_alaska_script_runs there): the
+   same without the premise [alaska_script_ok cfg].  At the time of writing the following was missing.  What is missing: in a
    replay that has left the recorded run, a simultaneous election with the fractional transfer and a
    ZERO threshold (Hare quota, total weight < seats) can meet, inside one tied group, a candidate
    absent from the replayed profile (KeyError) and one with a zero tally (ZeroDivisionError), in an
